@@ -16,7 +16,9 @@ CONSTANTS
   DisabledLeavesUnused = TRUE
   SubCodesMatch = TRUE
   BlockersBypass = FALSE
+  AssumeNoCrossCodeDups = TRUE
 INVARIANT Exactness
 INVARIANT DisableExact
+INVARIANT OutputExactness
 INVARIANT UnusedExact
 INVARIANT ExitCode
